@@ -223,7 +223,7 @@ func (e *env) implicitFlow(c *vclient.Client, withToken bool) {
 		e.flowFailed("implicit_callback", cb)
 		return
 	}
-	t.T0, t.T1, t.Issuer = t0, t1, x.Issuer
+	t.T0, t.T1, t.Issuer, t.Seq = t0, t1, x.Issuer, cb.SeqStart
 	if withToken && t.Access == "" {
 		e.flowFailed("implicit_callback_no_access_token", cb)
 		return
@@ -622,7 +622,7 @@ func main() {
 		for _, s := range []string{"code", "implicit", "refresh", "device", "token_exchange"} {
 			mand = append(mand, "id_token:"+s+":"+rn)
 		}
-		mand = append(mand, "jwt_access:"+rn, "opaque_access:"+rn)
+		mand = append(mand, "jwt_access:"+rn, "opaque_access:"+rn, "userinfo_hook_restricted:"+rn, "id_scopes_dropped_by_client:"+rn)
 	}
 	for _, a := range keys.AllAlgs {
 		mand = append(mand, "alg:"+string(a))
